@@ -8,8 +8,8 @@ import vlib
 import yprog
 from vlib import Pool, log
 
-UNSUPPORTED_TOKENS = {"class", "method", "import"}
-UNSUPPORTED_NODES = {"Self", "superinv", "superget"}
+UNSUPPORTED_TOKENS = set()
+UNSUPPORTED_NODES = set()
 
 
 def supported(toks):
